@@ -73,7 +73,7 @@ TEXT = {
  },
  "C16": {
   "technique": "property-based testing (rapid): generated pagers mixing pattern links with placeholder, off-site, look-alike, userinfo, other-scheme and malformed anchors; oracle = validity predicate on PaginationInfo (http(s), same host, target of a document anchor); thorough tier adds coverage-guided go fuzzing of the generator's bit-stream (rapid.MakeFuzz, same oracle)",
-  "level": "Exploration: tens of thousands of generated pagers per run over 13 URL families (incl. percent-escaped ones) and both algorithms.",
+  "level": "Exploration: tens of thousands of generated pagers per run over 15 URL families (incl. percent-escaped ones, a query ending in a slash and a directory-is-page-one family) and both algorithms.",
   "note": "Anchor targets are resolved by the harness with net/url; page URLs are http(s).", "ref": "DESIGN.md 4/C16",
  },
  "C17": {
